@@ -10,7 +10,7 @@ OUT=$VERIF/seeded/$ID
 export GOFLAGS=-mod=mod GOPROXY=off
 unset GOSUMDB GOTOOLCHAIN
 mkdir -p "$OUT"
-git -C "$SRC" diff > "$OUT/patch.diff"
+git -C "$SRC" diff -- . ":!demo" ":!SEEDED.md" > "$OUT/patch.diff"
 rm -rf "$OUT/demo"; cp -r "$SRC/demo" "$OUT/demo" 2>/dev/null
 cp "$SRC/SEEDED.md" "$OUT/SEEDED.md" 2>/dev/null
 WT=/tmp/wt-confirm-$ID
